@@ -181,6 +181,15 @@ class Ctx:
         self._model = None
         return SNum(c)
 
+    def count(self, name, lo, hi):
+        """A bounded integer encoded as a finite-domain Real (keeps queries in LRA: measured 10x
+        faster than Int/ToReal mixtures on the selection harness)."""
+        c = z3.Real(name)
+        self.symbols[name] = c
+        self.solver.add(z3.Or([c == v for v in range(lo, hi + 1)]))
+        self._model = None
+        return SNum(c)
+
     def bool(self, name):
         c = z3.Bool(name)
         self.symbols[name] = c
@@ -206,9 +215,23 @@ class Ctx:
             out[name] = model_value(model, c)
         return out
 
-    def path_model(self):
-        """A concrete model of the inputs on the current path."""
+    def path_model(self, distinct=None):
+        """A concrete model of the inputs on the current path.  `distinct`: names of symbols that
+        should take pairwise distinct values when the path allows it (returns None otherwise) — used
+        by the concrete twin to avoid models with accidental ties, whose tie-breaking inside
+        numpy/pandas sorts legitimately differs between object and float arrays."""
         self._model = None
+        if distinct:
+            syms = [self.symbols[n] for n in distinct if n in self.symbols]
+            if len(syms) > 1:
+                self.solver.push()
+                try:
+                    self.solver.add(z3.Distinct(*syms))
+                    if not self._check():
+                        return None
+                    return self.extract(self.solver.model())
+                finally:
+                    self.solver.pop()
         return self.extract(self._ensure_model())
 
 
@@ -321,6 +344,13 @@ def _num2(a, b):
     return a, b
 
 
+def _np_nan():
+    """NaN as a numpy scalar: keeps numpy's float semantics (nan/0 -> nan) inside object arrays."""
+    import numpy as _np
+
+    return _np.float64("nan")
+
+
 class Sym:
     __slots__ = ("e",)
     __array_ufunc__ = None  # numpy defers mixed ndarray∘Sym operations to the proxy
@@ -414,7 +444,7 @@ class SNum(Sym):
         if not _is_num(o):
             return NotImplemented
         if self._nan(o):
-            return float("nan")
+            return _np_nan()
         self._arith_ok(o)
         a, b = _num2(self, o)
         return _wrap_num(a + b)
@@ -423,7 +453,7 @@ class SNum(Sym):
         if not _is_num(o):
             return NotImplemented
         if self._nan(o):
-            return float("nan")
+            return _np_nan()
         a, b = _num2(o, self)
         return _wrap_num(a + b)
 
@@ -431,7 +461,7 @@ class SNum(Sym):
         if not _is_num(o):
             return NotImplemented
         if self._nan(o):
-            return float("nan")
+            return _np_nan()
         self._arith_ok(o)
         a, b = _num2(self, o)
         return _wrap_num(a - b)
@@ -440,7 +470,7 @@ class SNum(Sym):
         if not _is_num(o):
             return NotImplemented
         if self._nan(o):
-            return float("nan")
+            return _np_nan()
         a, b = _num2(o, self)
         return _wrap_num(a - b)
 
@@ -448,7 +478,7 @@ class SNum(Sym):
         if not _is_num(o):
             return NotImplemented
         if self._nan(o):
-            return float("nan")
+            return _np_nan()
         self._arith_ok(o)
         a, b = _num2(self, o)
         return _wrap_num(a * b)
@@ -457,7 +487,7 @@ class SNum(Sym):
         if not _is_num(o):
             return NotImplemented
         if self._nan(o):
-            return float("nan")
+            return _np_nan()
         a, b = _num2(o, self)
         return _wrap_num(a * b)
 
@@ -465,7 +495,7 @@ class SNum(Sym):
         if not _is_num(o):
             return NotImplemented
         if self._nan(o):
-            return float("nan")
+            return _np_nan()
         self._arith_ok(o)
         a, b = _num2(self, o)
         if z3.is_int(a):
@@ -480,7 +510,7 @@ class SNum(Sym):
         if not _is_num(o):
             return NotImplemented
         if self._nan(o):
-            return float("nan")
+            return _np_nan()
         a, b = _num2(o, self)
         if z3.is_int(a):
             a = z3.ToReal(a)
